@@ -31,7 +31,8 @@ RULE = (
     "machine_id=None for a multi-machine operation; environment step for (vi) "
     "a job with no operations left (also after the episode is complete), "
     "(vii) an ineligible machine, (viii) (job, -1) for a multi-machine "
-    "operation. Observers: all chosen feature observers + composite, history, "
+    "operation; and, through MultiJobShopGraphEnv, steps naming a finished "
+    "job, a machine or a job that does not exist in the current instance. Observers: all chosen feature observers + composite, history, "
     "unscheduled, both rewards, residual graph updater. Oracle: each injected "
     "request raises; deep snapshot (tracking vectors, schedule, all queries, "
     "every observer's public state, env observation) before == after; and a "
@@ -210,8 +211,69 @@ def inject(ctx, w, model, kind, x, y):
     return True
 
 
+def multi_env_part(case, ctx):
+    """Invalid steps through MultiJobShopGraphEnv: its action space is sized
+    for the largest instance, so ids that do not exist in the current
+    (smaller) instance are representable and must still be rejected."""
+    from job_shop_lib.generation import GeneralInstanceGenerator
+    from job_shop_lib.reinforcement_learning import MultiJobShopGraphEnv
+
+    seed = sum(len(r) for r in case["inst"]["durations"]) * 7 + len(case["events"])
+    gen_ = GeneralInstanceGenerator(num_jobs=(1, 3), num_machines=(1, 3), duration_range=(1, 5), seed=seed)
+    env = MultiJobShopGraphEnv(
+        gen_,
+        [obs.observer_config(cfg) for cfg in case["features"]],
+        graph_initializer=obs.BUILDERS[case["builder"]],
+    )
+    for _episode in range(2):
+        env.reset()
+        inner = env.single_job_shop_graph_env
+        inst_now = inner.instance
+        n_j, n_m = inst_now.num_jobs, len(inst_now.jobs[0])
+        step_no = 0
+        while not inner.dispatcher.schedule.is_complete():
+            d = inner.dispatcher
+            nxt = list(d.job_next_operation_index)
+            bad = []
+            for j in range(n_j):
+                if nxt[j] >= len(inst_now.jobs[j]):
+                    bad.append(((j, -1), "finished job"))
+                else:
+                    op = inst_now.jobs[j][nxt[j]]
+                    for mm in range(3 + 1):
+                        if mm not in op.machines:
+                            bad.append(((j, mm), "machine not eligible / not in this instance"))
+            for j in range(n_j, 3 + 1):
+                bad.append(((j, -1), "job id not in this instance"))
+            action, why = bad[(step_no * 5 + seed) % len(bad)]
+            before = (obs.full_snapshot(d), obs.obs_snapshot(inner.get_observation()))
+            raised = None
+            try:
+                env.step(action)
+            except Exception as e:  # pylint: disable=broad-except
+                raised = e
+            inner2 = env.single_job_shop_graph_env
+            ctx.check(
+                raised is not None,
+                "accepted:multi_env",
+                f"MultiJobShopGraphEnv.step({action}) ({why}; instance {n_j}x{n_m}) did not raise",
+            )
+            after = (obs.full_snapshot(inner2.dispatcher), obs.obs_snapshot(inner2.get_observation()))
+            if before != after or inner2 is not inner:
+                ctx.fail(
+                    "state-changed:multi_env",
+                    f"MultiJobShopGraphEnv.step({action}) ({why}) raised but changed the state: {obs.diff_snapshots(before, after)}",
+                )
+            ctx.count("rejected:multi_env")
+            op = d.available_operations()[0] if d.available_operations() else d.raw_ready_operations()[0]
+            env.step((op.job_id, op.machines[0]))
+            step_no += 1
+
+
 def check_case(case, ctx):
     inst, events = case["inst"], case["events"]
+    if len(events) % 4 == 0:
+        multi_env_part(case, ctx)
     w = World(case)
     twin = World(case)
     model = ref(inst)
